@@ -8,15 +8,59 @@ import (
 	"verif/mc/core"
 )
 
-// quick-tier definitions and tuples under ALL call-site contexts
-func TestAllContextsQuickBounds(t *testing.T) {
-	if os.Getenv("C07_DEV") == "" {
+func subSpace(s *macroSpace, keep func(i int) bool) *macroSpace {
+	o := &macroSpace{ctxs: s.ctxs}
+	for i := range s.shapes {
+		if !keep(i) {
+			continue
+		}
+		o.shapes = append(o.shapes, s.shapes[i])
+		o.labels = append(o.labels, s.labels[i])
+		o.defs = append(o.defs, s.defs[i])
+		o.tuples = append(o.tuples, s.tuples[i])
+		o.offs = append(o.offs, o.total)
+		o.total += int64(len(s.defs[i]) * len(definers) * len(s.tuples[i]))
+	}
+	return o
+}
+
+// development aids, skipped unless C07_DEV is set:
+//
+//	C07_DEV=sizes   print the sizes of space A
+//	C07_DEV=chain   run only the chain blocks (family MR) at quick bounds
+//	C07_DEV=allctx  run the quick definitions and tuples under the thorough-only contexts
+func TestDev(t *testing.T) {
+	mode := os.Getenv("C07_DEV")
+	if mode == "" {
 		t.Skip()
 	}
 	os.Setenv("VERIF_NO_EVIDENCE", "1")
+	for _, th := range []bool{false, true} {
+		s := newMacroSpace(th)
+		fmt.Println("thorough", th, "units", s.total, "ctxs", len(s.ctxs))
+		for i := range s.shapes {
+			fmt.Printf("  %-34s defs=%d tuples=%d\n", s.labels[i], len(s.defs[i]), len(s.tuples[i]))
+		}
+	}
+	if mode == "sizes" {
+		s := newMacroSpace(false)
+		n := len(s.shapes) - 3
+		for _, di := range []int{0, 37, 104} {
+			d := s.defs[n][di]
+			args := s.tuples[n][4]
+			fmt.Println(program("defmacro", s.shapes[n], d, allCtx[3], callForm(allCtx[3], args)))
+			fmt.Println(" model:", d.expand(s.shapes[n].bind(args)))
+		}
+		return
+	}
 	r := core.NewRun("C07", "quick")
 	s := newMacroSpace(false)
-	s.ctxs = allCtx[4:]
+	switch mode {
+	case "chain":
+		s = subSpace(s, func(i int) bool { return i >= len(formalShapes) })
+	case "allctx":
+		s.ctxs = allCtx[4:]
+	}
 	runMacroSpace(r, s)
 	fmt.Println("violations:", r.ViolationCount(), "evals", r.Evaluations)
 	if r.ViolationCount() > 0 {
